@@ -760,7 +760,7 @@ class C09:
         rng = random.Random(f"{sh['seed']}/C09")
         rng.shuffle(items)
         mine = items[sh["index"] :: 16]
-        for i, (label, cmd, form) in enumerate(mine):
+        for i, (label, cmd, form) in enumerate(harness.budgeted(mine, rec)):
             case = {"label": label, "cmd": cmd, "form": form, "reps": reps if not label.startswith("interrupt/") else min(reps, 8)}
             # a few long runs: leaks that only hurt after many commands
             if sh["tier"] == "quick" and i % 6 == 0 and not label.startswith(("interrupt/", "early-exit/")):
